@@ -13,7 +13,7 @@ let bop_of_line l = match l with
   | _ -> failwith "bad batch op"
 
 let run (id : string) (hdr : string list) (lines : string list list) (out : string -> unit) =
-  let c = { c_memsize = n_of_string (Drv_c01.kv_of hdr "memsize" "4096"); c_maxmem = n_of_int 1000 } in
+  let c = { c_memsize = n_of_string (Drv_c01.kv_of hdr "memsize" "4096"); c_maxmem = n_of_string (Drv_c01.kv_of hdr "maxmem" "1000") } in
   let pr x = out (id ^ " " ^ x) in
   (* run the whole program; collect keys *)
   let s = ref (init c) in
